@@ -185,6 +185,37 @@ func runC10(c *Ctx) {
 							c.OK("C10.3", fname(readFrom), "append", w.instrPos(in), "the buffer is empty here: the bytes read become the buffer (private copy)")
 							return
 						}
+						// the empty buffer's own storage re-used (buff[:0]): what is appended is
+						// either everything just read, or — when a whole frame at the front of the
+						// bytes just read is being returned from where it lies — exactly the rest:
+						// src[size:n] with size the nil-error result of the frame test over src[:n]
+						if _, fl, isL := fieldLoad(w.resolveLoad(sl.X)); isL && fl == buff && sl.Low == nil {
+							if k, isK := constInt(sl.High); isK && k == 0 && len(v.Call.Args) == 2 {
+								if tail, isT := v.Call.Args[1].(*ssa.Slice); isT {
+									if tail.Low == nil {
+										c.OK("C10.3", fname(readFrom), "append", w.instrPos(in), "the buffer is empty here: the bytes read become the buffer")
+										return
+									}
+									cc, ci := callOf(tail.Low)
+									okTail := false
+									if cc != nil && cc.Call.StaticCallee() == consume && ci == 0 {
+										if arg, isA := cc.Call.Args[0].(*ssa.Slice); isA && arg.Low == nil && w.sameKey(arg.X, tail.X) && w.key(arg.High) == w.key(tail.High) {
+											for _, f := range w.factsAt(in) {
+												if x, isNil, isNF := nilFact(f); isNF && isNil {
+													if fc, fi := callOf(x); fc == cc && fi == 1 {
+														okTail = true
+													}
+												}
+											}
+										}
+									}
+									if okTail {
+										c.OK("C10.3", fname(readFrom), "append", w.instrPos(in), "a whole frame heads the bytes just read and is returned in place: exactly the bytes after it (src[size:n]) are kept")
+										return
+									}
+								}
+							}
+						}
 					}
 				}
 				c.Bad("C10.3", fname(readFrom), "buff store", w.instrPos(in), "unexpected rewrite of the reassembly buffer")
